@@ -77,7 +77,15 @@ def check_cfg(acc: Acc, cfg: Cfg, horizon: int) -> None:
         if left:
             acc.violation("verified-class-left", "CombinatorialSpecification.expand_verified", where, f"still expandable: {[c.sid() for c in left]}", payload)
         probs = count_problems(new, start, N)
-        allowed = list(cfg.make_pack()) + list(dw.base_pack())
+        if cfg.to_json().get("domain") == "G":
+            from mc import domain_g as dg
+
+            allowed = list(cfg.make_pack())
+            for st in list(allowed):
+                if isinstance(st, dg.GVerify) and st.pack_name:
+                    allowed += list(dg.g_pack(st.pack_name))
+        else:
+            allowed = list(cfg.make_pack()) + list(dw.base_pack())
         probs += structure_problems(new, start, allowed)
         for p in probs[:2]:
             acc.violation("expanded-specification-invalid", "CombinatorialSpecification.expand_comb_class", where, p, payload)
@@ -124,6 +132,14 @@ def configs(tier: str) -> List[Cfg]:
             for nested in ("ver2:a>ab", "ver2:e>a", "ver2:a>aa,ab", "ver2:b>ba,bb", "ver2:e,b>a,ba"):
                 for db in dbs:
                     res.append(Cfg.of(c.with_(stats=st), nested, db))
+    # verified classes that can only be expanded with a reverse rule (the retry of
+    # expand_verified), also under an original specification that contains a reverse rule
+    from mc import domain_g as dg
+    from mc.search import GCfg
+
+    for g, pk in dg.expand_universes():
+        for db in ("RuleDB", "Forest", "Forget"):
+            res.append(GCfg(g, (), pk, db))
     return res
 
 
